@@ -77,10 +77,18 @@ class Exec(ExprMixin, StmtMixin, CallMixin):
         a = e.args
         if n in self.defs:
             params, body = self.defs[n]
-            if not params and n in self.contract.get('state_independent', ()):
-                # macro over argparse constants only (given(..)): same term on every path, evaluate once
-                if n not in self.pure_cache: self.pure_cache[n] = self.ev(parse_spec(body), p)
-                return self.pure_cache[n]
+            if n in self.contract.get('state_independent', ()):
+                # macro over parameters / argparse constants only: the same term on every path, evaluated once.
+                # Only calls whose arguments mention nothing but (never reassigned) parameters and constants are cached.
+                stable = self.contract.get('stable_names', ())
+                if all((not isinstance(x, ast.Name)) or x.id in stable or x.id in self.defs or x.id in SPECFUNS or x.id in self.spec_ext
+                       for arg in a for x in ast.walk(arg)):
+                    key = (n, tuple(ast.dump(x) for x in a))
+                    if key not in self.pure_cache:
+                        q = p.fork(); vals = [self.ev(x, p) for x in a]
+                        for nm, v in zip(params, vals): q.env[nm] = v
+                        self.pure_cache[key] = self.ev(parse_spec(body), q)
+                    return self.pure_cache[key]
             if len(params) != len(a): raise StaleContract('arity of spec function ' + n)
             q = p.fork(); vals = [self.ev(x, p) for x in a]
             q.env = dict(p.env)
@@ -131,6 +139,15 @@ class Exec(ExprMixin, StmtMixin, CallMixin):
             if n == 'dupfree': return VBool(listsets.DupFree(L.term()))
             v = self.ev(a[1], p)
             return VList(L.len + 1, z3.Store(L.arr, L.len, v.t), 'int')
+        if n in ('is_list', 'is_int', 'py_int', 'py_head', 'py_tail', 'py_len'):
+            v = self.ev(a[0], p); L = list_sort('int')
+            t = self.topy(v)
+            if n == 'is_list': return VBool(Py.is_plist(t))
+            if n == 'is_int': return VBool(Py.is_pint(t))
+            if n == 'py_int': return VInt(Py.i(t))
+            if n == 'py_head': return VInt(Py.head(t))
+            if n == 'py_len': return VInt(1 + L.len(Py.tail(t)))
+            return VList(L.len(Py.tail(t)), L.arr(Py.tail(t)), 'int')
         if n == 'opt_is_none': return VBool(Opt.is_none(self.toopt(self.ev(a[0], p))))
         if n == 'opt_val': return VInt(Opt.v(self.toopt(self.ev(a[0], p))))
         if n == 'real': return VReal(self.toreal(self.ev(a[0], p)))
@@ -193,7 +210,9 @@ class Exec(ExprMixin, StmtMixin, CallMixin):
         self.old_stack = []
         nret = 0
         for st, q, pay in res:
-            if st == 'normal': st, pay = 'return', VNone()
+            if st == 'normal':
+                st, pay = 'return', VNone(); self.apply_lemmas('return', q)
+            if st == 'exit': self.apply_lemmas('exit', q)
             if st == 'return':
                 nret += 1
                 self.bind_result(q.env, pay)
@@ -253,6 +272,7 @@ def named_of_kind(name, k):
     if k == 'ref': return VRef(z3.Int(name))
     if k == 'tok': return VTok(z3.Const(name, Tok))
     if k == 'optint': return VOpt(z3.Const(name, Opt))
+    if k == 'py': return VPy(z3.Const(name, Py))
     if isinstance(k, tuple) and k[0] == 'list':
         return VList(z3.Int(name + '.len'), z3.Array(name + '.arr', I, sort_of(k[1])), k[1])
     if isinstance(k, tuple) and k[0] == 'str': return VStr([('opaque', name)])
@@ -298,6 +318,8 @@ def _verify_lemma(self, name, L):
     for h in L.get('hyps', []):
         for cl in clauses(h): p.assume(ev_clause(cl))
     self.vcs.append(VC('cover/hyps', list(p.pc), z3.BoolVal(False), 'cover', 0, self.fn.key, expect='sat'))
+    for lname, binding in L.get('uses', []):
+        self.use_lemma(lname, binding, p, 'uses')
     if 'induct' in L:
         # claim(m) for all lo <= m <= hi, by induction on m: base and step are separate VCs (the induction
         # principle itself is part of the trusted engine)
@@ -318,8 +340,10 @@ def _verify_lemma(self, name, L):
             for cl in clauses(g):
                 self.vcs.append(VC('goal/%s/%s' % (g[1].split(':')[1], cl.nm), list(p.pc), ev_clause(cl), 'lemma', 0, self.fn.key))
         else:
-            nm, src = g
-            self.vcs.append(VC('goal/' + nm, list(p.pc), self.spec_eval(src, p), 'lemma', 0, self.fn.key))
+            nm, src = g[0], g[1]
+            t = self.spec_eval(src, p)
+            self.vcs.append(VC('goal/' + nm, list(p.pc), t, 'lemma', 0, self.fn.key))
+            if len(g) > 2 and g[2] == 'then-assume': p.assume(t)      # a chain: later goals may use earlier ones
     return self.vcs, dict(function='lemma:' + name, file='contracts', lines=[0, 0], sha256='', stmts_executed=0, paths=1, vcs=len(self.vcs))
 
 
@@ -329,7 +353,7 @@ def _induct_fact(self, L, p):
     return z3.ForAll([m], z3.Implies(z3.And(self.spec_value(lo, p).t <= m, m <= self.spec_value(hi, p).t), self.spec_eval(claim, q)))
 
 
-def _use_lemma(self, name, binding, p, where):
+def _use_lemma(self, name, binding, p, where, conditional=False):
     """Instantiate a proved lemma: its hypotheses become obligations, its conclusions are assumed."""
     L = self.all_lemmas.get(name)
     if L is None: raise StaleContract('unknown lemma ' + name)
@@ -339,19 +363,24 @@ def _use_lemma(self, name, binding, p, where):
         q.env[n] = self.spec_value(binding[n], p)
     saved = self.defs; self.defs = dict(self.global_defs); self.defs.update(L.get('defs', {}))
     try:
+        hyps = []
         for i, h in enumerate(L.get('hyps', [])):
             if not isinstance(h, str): raise StaleContract('lemma %s with contract-clause hypotheses cannot be instantiated' % name)
-            self.vcs.append(VC('lemma-pre/%s/%d@%s' % (name, i, where), list(p.pc), self.spec_eval(h, q), 'call-pre', 0, self.fn.key))
-        if 'induct' in L: p.assume(self.induct_fact(L, q))
+            t = self.spec_eval(h, q); hyps.append(t)
+            if not conditional:
+                self.vcs.append(VC('lemma-pre/%s/%d@%s' % (name, i, where), list(p.pc), t, 'call-pre', 0, self.fn.key))
+        # conditional use: (hypotheses => conclusions) is assumed, no obligation (the lemma simply does not apply otherwise)
+        guard = (lambda t: z3.Implies(z3.And(*hyps), t) if hyps else t) if conditional else (lambda t: t)
+        if 'induct' in L: p.assume(guard(self.induct_fact(L, q)))
         for g in L.get('goals', []):
-            if isinstance(g, tuple) and len(g) == 2 and g[0] != 'assume': p.assume(self.spec_eval(g[1], q))
+            if isinstance(g, tuple) and g[0] not in ('assume', 'requires', 'ensures') and isinstance(g[1], str): p.assume(guard(self.spec_eval(g[1], q)))
     finally:
         self.defs = saved
 
 
 def _apply_lemmas(self, anchor, p):
-    for name, binding in self.contract.get('use_lemmas', {}).get(anchor, []):
-        self.use_lemma(name, binding, p, anchor)
+    for u in self.contract.get('use_lemmas', {}).get(anchor, []):
+        self.use_lemma(u[0], u[1], p, anchor, conditional=(len(u) > 2 and u[2] == 'if-applicable'))
 
 
 Exec.verify_lemma = _verify_lemma
